@@ -15,19 +15,20 @@ SPEC = {
                 1: "no starvation: credit discarded while the subscriber is being refused stays within burst + one max packet",
                 2: "rate 0 means unlimited",
                 3: "the policy set through the control plane is the one enforced"},
-    "rule": "a case = a configuration (raw bucket values, or SetSubscriberQoS/SetSubscriberPolicy/RemoveSubscriberQoS executed by the real qos.Manager on real kernel maps) and an arrival sequence; packets are run by the natively compiled qos_ratelimit.c under a scripted clock, or by the object loaded in the kernel (BPF_PROG_TEST_RUN) and then replayed natively with the clock value the kernel used; distinct = distinct case terms",
+    "rule": "a case = a configuration (raw bucket values, or SetSubscriberQoS/SetSubscriberPolicy/RemoveSubscriberQoS executed by the real qos.Manager on real kernel maps, or a life cycle of the plan table - AddPolicy / re-definition / RemovePolicy / LoadDefaultPolicies / GetPolicy / ListPolicies on the real radius.PolicyManager with SetSubscriberPolicy after each change) and an arrival sequence; packets are run by the natively compiled qos_ratelimit.c under a scripted clock, or by the object loaded in the kernel (BPF_PROG_TEST_RUN) and then replayed natively with the clock value the kernel used; distinct = distinct case terms",
     "assumptions": [
         "'always has a packet waiting' is read for a policer (no queue) as: offered and refused at consecutive arrivals; idle time is never charged (docs/C19.md)",
         "the default burst when BurstBytes = 0 is the documented one (1 s of traffic, 64 KiB..10 MiB) without the uint32 truncation",
-        "statistics map, Start()/TC attachment, and concurrent CPUs updating one bucket (plain read-modify-write in C) are outside the Model",
+        "statistics map, Start()/TC attachment, a failing map Put (half-written policy, error returned), the manager's subscriber tracking map, and concurrent CPUs updating one bucket (plain read-modify-write in C) are outside the Model",
+        "a plan that is re-defined but not re-applied changes no subscriber's contract (the code does not push plans to subscribers); LoadDefaultPolicies is a control-plane call like AddPolicy: it replaces operator plans that carry built-in names",
         "the kernel clock cannot be scripted: clause 1 is exercised natively; kernel runs cover lookup, verdict, priority and map write-back with the observed clock",
     ],
     "trusted_extra": ["clang 14 (BPF and x86-64 back ends), shim bpf_helpers.h, native runner cbpf/native/runner.c (scripted bpf_ktime_get_ns), Linux 6.18 BPF verifier/interpreter under BPF_PROG_TEST_RUN, cilium/ebpf v0.12.3 loader and map marshalling (measured through real kernel maps)"],
-    "modelled": ["bpf/qos_ratelimit.c token_bucket_check, qos_egress_prog, qos_ingress_prog", "pkg/qos/manager.go SetSubscriberQoS, SetSubscriberPolicy, RemoveSubscriberQoS, ipToKey", "pkg/radius/policy.go QoSPolicy via PolicyManager"],
+    "modelled": ["bpf/qos_ratelimit.c token_bucket_check, qos_egress_prog, qos_ingress_prog", "pkg/qos/manager.go SetSubscriberQoS, SetSubscriberPolicy, RemoveSubscriberQoS, ipToKey", "pkg/radius/policy.go PolicyManager (AddPolicy, GetPolicy, RemovePolicy, ListPolicies, LoadDefaultPolicies), DefaultPolicies table"],
 }
 
 MANIFEST = {
-    "text": "Model of token_bucket_check exactly as coded (elapsed mod 2^64, (elapsed*(rate/8)) mod 2^64 / 10^9, cap, spend, last_update always advanced) and of both TC programs, plus what qos.Manager writes. Theorems over every arrival sequence with a non-decreasing 64-bit clock, every rate and burst, tokens <= burst: bytes admitted in any window <= burst + (rate/8)*window/10^9 (full); rate 0 passes everything (full, bucket and program). No-starvation is refuted on the faithful Model: per-packet truncation starves a backlogged low-rate subscriber forever (general lemma + 70000-packet witness) and the 64-bit product wraps (100 Gbit/s, 1.4757 s gap); it is proved under the decidable guard 'every gap is a whole number of token periods, no wrap'. Policy-enforced is refuted (bucket stored under the byte-reversed address; ingress burst ignores the policy) and proved for palindromic addresses with default burst. All refutations are replayed on the real code as known findings. Every run recompiles the C, loads it in the kernel (verifier), lets the real Manager write real kernel maps, runs the native build under a scripted clock and the kernel build under test-run; every kernel run is replayed natively with the observed clock and must agree in verdict, priority and map contents.",
+    "text": "Model of token_bucket_check exactly as coded (elapsed mod 2^64, (elapsed*(rate/8)) mod 2^64 / 10^9, cap, spend, last_update always advanced) and of both TC programs, plus what qos.Manager writes. Theorems over every arrival sequence with a non-decreasing 64-bit clock, every rate and burst, tokens <= burst: bytes admitted in any window <= burst + (rate/8)*window/10^9 (full); rate 0 passes everything (full, bucket and program). No-starvation is refuted on the faithful Model: per-packet truncation starves a backlogged low-rate subscriber forever (general lemma + 70000-packet witness) and the 64-bit product wraps (100 Gbit/s, 1.4757 s gap); it is proved under the decidable guard 'every gap is a whole number of token periods, no wrap'. Policy-enforced is refuted (bucket stored under the byte-reversed address; ingress burst ignores the policy) and proved for palindromic addresses with default burst (download alone: any rate and explicit burst). The plan table of radius.PolicyManager is modelled: for every history of control-plane calls the table binds a name to its last definition (full), that binding is what GetPolicy returns and SetSubscriberPolicy writes (full), and under the byte-order guard the whole TC program, run over any arrival sequence with the map threaded through, admits in every window at most the burst plus rate times window of the contract set directly or through a plan after any history of re-definitions (end to end); rate 0 set that way passes everything. The monitor accepts the Model on every history of control-plane calls (full). All refutations are replayed on the real code as known findings. Every run recompiles the C, loads it in the kernel (verifier), lets the real Manager write real kernel maps, drives plan life cycles (define, apply, re-define, re-apply, defaults over operator plans and back, remove) and measures after each application what the program enforces, runs the native build under a scripted clock and the kernel build under test-run; every kernel run is replayed natively with the observed clock and must agree in verdict, priority and map contents.",
     "note": "Theorems are about the hand-written Model; the tie is sampled. The clause-1 monitor embodies one reading of 'always has a packet waiting' for a policer (docs/C19.md). Concurrent CPUs on one bucket are not modelled.",
     "technique": "Rocq proof (induction over arrival lists, floor-sum and wrap lemmas, lockstep simulation of monitor and bucket) + differential correspondence: native scripted-clock execution and kernel BPF_PROG_TEST_RUN of the compiled C against vm_compute evaluation of the Model, with an exact-arithmetic trace monitor",
     "design_ref": "DESIGN.md §8 C19, docs/C19.md, docs/BPF.md",
